@@ -412,13 +412,55 @@ result = out
     return dict(unit="bounded-literals", func="parser.number (bounded stand-in)", paths=len(texts), obligations=[ob], wall=0.0)
 
 
+def unit_bounded_values(eng=None, tree=None):
+    """every infix operator on a grid of small, negative and large operand values through the real assembler against spec/expr_spec.py (the
+    operator bodies are proved over all integers; this grid is what still decides when a body uses a construct outside the subset, e.g. floats)"""
+    from spec import expr_spec as spec
+    A = [-7, -5, -4, -1, 0, 1, 2, 3, 5, 7, 100, -100, 2 ** 20 + 3, -(2 ** 20 + 3), 3 * 2 ** 58 + 1, -(3 * 2 ** 58 + 1)]
+    B = [-60, -3, -2, -1, 0, 1, 2, 3, 5, 7, 58, -58]
+    lit = lambda v: ("<-%d.>" % -v) if v < 0 else "%d." % v  # noqa
+    jobs, exps = [], []
+    for op in spec.INFIX:
+        for a in A:
+            for b in (B if op in ("<<", ">>", "_") else A[:12]):
+                try:
+                    v = spec.apply_infix(op, a, b)
+                except spec.ArithmeticError_:
+                    v = None
+                if v is not None and abs(v) >= 2 ** 32:
+                    # reduce by a mask the spec and the assembler both apply: keep the low 30 bits and the sign through '% '
+                    src = ".dword ((%s %s %s) %% %d.)\n" % (lit(a), op, lit(b), 2 ** 30)
+                    v = v % 2 ** 30
+                else:
+                    src = ".dword (%s %s %s)\n" % (lit(a), op, lit(b))
+                jobs.append({"kind": "asm", "sources": [src]})
+                exps.append(v)
+    res = driver.native(jobs, tree or driver.tree_root())
+    bad = []
+    for j, v, r in zip(jobs, exps, res):
+        if r["status"] == "crash":
+            bad.append((j["sources"][0], "internal exception", r.get("exc")))
+        elif v is None:
+            if r["status"] != "fail":
+                bad.append((j["sources"][0], "must be an error (division by zero / negative shift count)", r.get("code_hex")))
+        else:
+            w = (v % 2 ** 32)
+            want = ((w >> 16).to_bytes(2, "little") + (w & 0xFFFF).to_bytes(2, "little")).hex()
+            if r["status"] != "ok" or r["code_hex"] != want:
+                bad.append((j["sources"][0], "expected %d" % v, [r["status"], r.get("code_hex")]))
+    ob = dict(label="every-infix-operator-on-a-grid-of-operand-values(negative, zero, beyond 2^53)==spec.apply_infix", kind="bounded", status="proved" if jobs and not bad else "failed", secs=0.0, path=[],
+              witness=None, detail=str(bad[:5]), events=[], smt2=None, backend="cpython-native", unit="bounded-values", func="operators.* (bounded stand-in)",
+              bound="%d operator applications: 12 operators x 16 left values x 12 right values" % len(jobs), cases=len(jobs), cfg=dict(kind="bounded"))
+    return dict(unit="bounded-values", func="operators.* (bounded stand-in)", paths=len(jobs), obligations=[ob], wall=0.0)
+
+
 def spec_is_plain_digits_with_8_9(t):
     return t.isdigit() and ("8" in t or "9" in t)
 
 
 def units(tier):
     us = [("table", "unit_table", {}), ("number", "unit_number", {}),
-          ("bounded-precedence", "unit_bounded_precedence", dict(tier=tier)), ("bounded-literals", "unit_bounded_literals", dict(tier=tier)),
+          ("bounded-precedence", "unit_bounded_precedence", dict(tier=tier)), ("bounded-literals", "unit_bounded_literals", dict(tier=tier)), ("bounded-values", "unit_bounded_values", {}),
           ("^R-pack-closed", "unit_pack_closed", {}), ("^R-alphabet", "unit_alphabet_closed", dict(which="literal"))]
     for n_ in range(0, 5):
         us.append(("^R-pack_to_int[%d]" % n_, "unit_pack_to_int", dict(n=n_)))
